@@ -55,6 +55,10 @@ type WSCase struct {
 	// (back-pressure on the relay's outgoing path); it resumes reading well
 	// before the send timeout.
 	StallBurst int `json:"stall_burst,omitempty"`
+	// Companion: authentic EVENTs a second client sends over its own connection
+	// to the same relay while the first session runs (sessions must not affect
+	// each other's validation).
+	Companion []simrt.EvSpec `json:"companion,omitempty"`
 	Sched  simrt.Schedule   `json:"sched"`
 }
 
@@ -127,7 +131,7 @@ func marshalNoEscape(v any) []byte {
 	return bytes.TrimRight(b.Bytes(), "\n")
 }
 
-var wsContents = []string{"hello", "<b>bold</b> & more", "line\nbreak\ttab \"quoted\" back\\slash", "sep   and  ", "astral \U0001F600\U0001F4A9", "ctl \u0001\u001f\u007f", "日本語", ""}
+var wsContents = []string{"hello", "<b>bold</b> & more", "line\nbreak\ttab \"quoted\" back\\slash", "sep   and  ", "astral \U0001F600\U0001F4A9", "ctl \u0001\u001f\u007f", "日本語", "literal \\u2028 and \\\\u2029 and \\u003c text", ""}
 
 func genWSMsg(t *rapid.T, c *WSCase, i int) *simrt.Msg {
 	mkEv := func(kind int64) *simrt.EvSpec {
@@ -426,8 +430,27 @@ func (wsEngine) Gen(t *rapid.T, tier string) any {
 	} else if c.Opt.Rate >= 100 && rapid.IntRange(0, 3).Draw(t, "stallburst") == 0 {
 		c.StallBurst = rapid.SampledFrom([]int{3, 70, 150}).Draw(t, "burst")
 	}
+	if rapid.IntRange(0, 2).Draw(t, "companion") == 0 {
+		for i, n := 0, rapid.IntRange(1, 6).Draw(t, "ncomp"); i < n; i++ {
+			c.Companion = append(c.Companion, simrt.EvSpec{Author: rapid.IntRange(0, 3).Draw(t, "cauthor"), Kind: 1, CreatedAt: int64(500 + i),
+				Content: strings.Repeat(rapid.SampledFrom(wsContents).Draw(t, "ccontent"), rapid.IntRange(1, 4).Draw(t, "crep")) + fmt.Sprintf(" c#%d", i), Sign: true})
+		}
+	}
 	c.Sched = GenSchedule(t, 4000)
 	return c
+}
+
+type wsCompanionKey struct{}
+
+// wsDispatch gives every session its own recording handler: the companion's
+// request context carries wsCompanionKey.
+type wsDispatch struct{ main, comp *wsHandler }
+
+func (d *wsDispatch) ServeNostr(ctx context.Context, send chan<- mocrelay.ServerMsg, recv <-chan mocrelay.ClientMsg) error {
+	if ctx.Value(wsCompanionKey{}) != nil {
+		return d.comp.ServeNostr(ctx, send, recv)
+	}
+	return d.main.ServeNostr(ctx, send, recv)
 }
 
 // ---- recording handler behind the relay
@@ -439,14 +462,19 @@ type wsHandler struct {
 	emitted int
 	done   bool
 	flood  bool // keep emitting for ever (stall scenario)
+	name   string
 }
 
 func (h *wsHandler) ServeNostr(ctx context.Context, send chan<- mocrelay.ServerMsg, recv <-chan mocrelay.ClientMsg) error {
-	verifsim.NameMe("wsh")
+	nm := "wsh"
+	if h.name != "" {
+		nm = h.name
+	}
+	verifsim.NameMe(nm)
 	fin := make(chan struct{})
 	go func() {
 		defer close(fin)
-		verifsim.NameMe("wsh.em")
+		verifsim.NameMe(nm + ".em")
 		for i := 0; ; i++ {
 			var m mocrelay.ServerMsg
 			if h.flood {
@@ -566,12 +594,46 @@ func (wsEngine) Exec(t *testing.T, cc any) *simrt.Result {
 		}
 		emit, emitWire := wsEmissions(c)
 		h := &wsHandler{sim: sim, emit: emit}
-		relay := mocrelay.NewRelay(h, relayOpt(c.Opt))
+		hc := &wsHandler{sim: sim, name: "wshc"}
+		relay := mocrelay.NewRelay(&wsDispatch{main: h, comp: hc}, relayOpt(c.Opt))
 		mux := &mocrelay.ServeMux{Relay: relay}
 		srvCtx, srvCancel := context.WithCancel(context.Background())
 		sim.Cleanup(srvCancel)
 		ctx, cancel := context.WithCancel(context.Background())
 		sim.Cleanup(cancel)
+		// the companion session (own connection, own chunking)
+		var cconn *websocket.Conn
+		var clink *simrt.WSLink
+		compDone := len(c.Companion) == 0
+		compWrote := 0
+		if len(c.Companion) > 0 {
+			st.Probe("companion_session")
+			sim.Go("wsk", func() {
+				defer func() { compDone = true }()
+				var err error
+				cconn, clink, err = sim.DialWS(ctx, context.WithValue(srvCtx, wsCompanionKey{}, true), "ws1", mux, simrt.SimConnCfg{Chunk: 4096})
+				if err != nil {
+					return
+				}
+				sim.Go("wsk.rd", func() {
+					for {
+						verifsim.Yield("wsk.rd")
+						if _, _, err := cconn.Read(ctx); err != nil {
+							return
+						}
+					}
+				})
+				for i := range c.Companion {
+					verifsim.Yield("wsk.wr")
+					m := &simrt.Msg{T: "EVENT", Ev: &c.Companion[i]}
+					if err := cconn.Write(ctx, websocket.MessageText, marshalNoEscape(msgWire(m))); err != nil {
+						return
+					}
+					compWrote++
+				}
+			})
+		}
+		_ = clink
 
 		var conn *websocket.Conn
 		var link *simrt.WSLink
@@ -628,7 +690,7 @@ func (wsEngine) Exec(t *testing.T, cc any) *simrt.Result {
 			}
 		}
 		// drive with time: the rate limiter and the ping ticker need the clock
-		budget := time.Duration(float64(len(c.Frames))/c.Opt.Rate*float64(time.Second)) + 3*time.Second
+		budget := time.Duration(float64(max(len(c.Frames), len(c.Companion)))/c.Opt.Rate*float64(time.Second)) + 3*time.Second
 		ji := 0
 		for elapsed := time.Duration(0); ; {
 			if s := sim.Drive(); s != simrt.Quiescent {
@@ -639,7 +701,7 @@ func (wsEngine) Exec(t *testing.T, cc any) *simrt.Result {
 				sim.Res.Harness = "dial: " + dialErr.Error()
 				return
 			}
-			if writerDone && elapsed >= budget {
+			if writerDone && compDone && elapsed >= budget {
 				break
 			}
 			if elapsed > 10*time.Minute {
@@ -657,6 +719,24 @@ func (wsEngine) Exec(t *testing.T, cc any) *simrt.Result {
 		_ = readerDone
 		if c.Conn.Chunk < 64 {
 			st.Fault("conn-chunk-small")
+		}
+		// ---- the companion session: every one of its authentic events reached its
+		// handler, in order, whatever happened on the other connection
+		if len(c.Companion) > 0 {
+			for i := 0; i < compWrote; i++ {
+				want := &simrt.Msg{T: "EVENT", Ev: &c.Companion[i]}
+				if i >= len(hc.recvd) || !wsSameMsg(hc.recvd[i], want) {
+					sim.Violate("C12", "valid-frame-not-delivered", map[string]string{"conn": "companion", "type": "EVENT"}, "a correctly signed EVENT sent over a second, concurrent connection never reached the handler (in order): #%d %s; the handler received %d messages", i, truncate(string(marshalNoEscape(msgWire(want))), 200), len(hc.recvd))
+					break
+				}
+			}
+			if len(hc.recvd) > compWrote {
+				sim.Violate("C12", "invalid-frame-delivered", map[string]string{"conn": "companion"}, "the companion session's handler received %d messages, the client sent %d", len(hc.recvd), compWrote)
+			}
+			if cconn != nil {
+				sim.Go("wsk.closenow", func() { cconn.CloseNow() })
+				sim.Drive()
+			}
 		}
 		if link != nil && link.WasReset.Load() {
 			// ---- connection reset mid-stream: whatever reached the handler must be a
